@@ -2,8 +2,8 @@
 
    One process: a libstrophe client (normal implementation archive, real OpenSSL back end) talks to
    an OpenSSL server thread over a loopback TCP socket.  Certificates are minted at start-up with
-   libcrypto (two CAs, leaf certificates of every kind).  The only hook is ld --wrap=SSL_connect:
-   at the first SSL_connect of a handshake the wrapper records the configuration that libstrophe
+   libcrypto (two CAs, leaf certificates of every kind).  The only hooks are ld --wrap=send (records the
+   plaintext sock.c writes) and ld --wrap=SSL_connect: at the first SSL_connect of a handshake the wrapper records the configuration that libstrophe
    actually handed to OpenSSL (verify mode, verify callback present, host flags, pinned host) and
    slips a logging shim around the installed verify callback so that OpenSSL's per-chain-element
    verdict stream (preverify_ok) and the library's answers become observable.  The library source
@@ -23,7 +23,10 @@
      e=<depth>:<err>,...                  X509 error depth/code of each invocation (diagnostic)
      cb=<n>:<cn>,...                      user certfail handler invocations (subject CN of the certificate)
      ts=<n>                               number of handshakes started (SSL_connect sequences)
-     ev=C<sec>|D<sec>,...                 connection events with xmpp_conn_is_secured at that moment
+     ev=C<sec>|D<sec>/<err>,...           connection events with xmpp_conn_is_secured at that moment (and the error code
+                                          of the disconnect: 0, ABRT, RST, TMO or the number)
+     te=<n>                               SSL_get_error of the last SSL_connect (0 on success)
+     cw=<before>|<after>                  plaintext the library wrote with send(): before / after the handshake began
      sec=<max>/<final>                    xmpp_conn_is_secured polled after every loop iteration
      srv=c:<toks>|hs<+|-|0>|t:<toks>|r:<toks>   what the server received: in the clear before TLS,
                                           handshake result on its side, over TLS, raw after a failed handshake
